@@ -955,6 +955,10 @@ impl Family for Sock {
         )
     }
 
+    fn realtime(case: &str) -> bool {
+        parse_case(case).map_or(false, |c| c.flavor != 0)
+    }
+
     fn run(case: &str) -> Outcome {
         let cfg = match parse_case(case) {
             Some(c) => c,
